@@ -247,5 +247,17 @@ AutoOnlyDefs == <<
 ModAutomatic == MkMod("VA", "AUTOMATIC", CommonDefs \o AutoOnlyDefs)
 ModImplicit == MkMod("VI", "IMPLICIT", CommonDefs)
 
-Modules == <<ModExplicit, ModAutomatic, ModImplicit>>
+\* ---- large values: PER fragmentation (16K / 64K boundaries), long-form lengths ---------------
+\* (explored in the thorough tier: evaluating a 64K-element encoding takes TLC tens of seconds)
+Pat(n) == [i \in 1..n |-> (i * 7) % 256]
+ModBig == MkMod("VB", "AUTOMATIC", <<
+  D("O-big", TOctets(CNone)),
+  D("Q-extbig", TSeq(<<C(TInt(R(0, 255)))>>, TRUE, <<O(TOctets(CNone))>>)),
+  D("L-bool-big", TSeqOf(TBool, R(1, 65536))) >>)
+BigValues(n) ==
+  CASE n = "O-big" -> {Pat(k) : k \in {16383, 16384, 16385, 32768, 65536}}
+    [] n = "Q-extbig" -> {<<Pres(I(7)), Pres(Pat(k))>> : k \in {16383, 16384, 49153}}
+    [] n = "L-bool-big" -> {[i \in 1..k |-> i % 3 = 0] : k \in {16384, 65536}}
+
+Modules == <<ModExplicit, ModAutomatic, ModImplicit, ModBig>>
 =============================================================================
